@@ -14,6 +14,7 @@ pub fn channel(Tracked(k): Tracked<&mut K>) -> (r: Result<(OsIpcSender, OsIpcRec
             &&& final(k).peer == old(k).peer.insert(tx.fd.0, cell_val(&rx.fd))
             &&& final(k).sock == old(k).sock.insert(cell_val(&rx.fd)).insert(tx.fd.0)
             &&& final(k).log == old(k).log
+            &&& final(k).own_rx == old(k).own_rx.insert(cell_val(&rx.fd))     // we hold the new receive end ourselves
         },
         r is Err ==> *final(k) == *old(k),
 { unimplemented!() }
@@ -29,7 +30,7 @@ pub fn send_first_fragment(Tracked(k): Tracked<&mut K>, sender_fd: c_int, fds: &
         fds@.len() <= MAX_FDS_IN_CMSG, //@@clause:unix.send_first_fragment/requires.fds_le_max
         data_buffer@.len() <= spec_first(sys_sendbuf()), //@@clause:unix.send_first_fragment/requires.fits_first_iovec
     ensures
-        final(k).peer == old(k).peer, final(k).sock == old(k).sock,
+        final(k).peer == old(k).peer, final(k).sock == old(k).sock, final(k).own_rx == old(k).own_rx,
         r is Ok ==> final(k).q == old(k).q.insert(old(k).peer[sender_fd],
             old(k).q[old(k).peer[sender_fd]].push(Packet { hdr: Some(len as nat), data: data_buffer@, fds: fds@ })),
         r is Err ==> final(k).q == old(k).q,
@@ -43,8 +44,10 @@ pub fn send_followup_fragment(Tracked(k): Tracked<&mut K>, sender_fd: c_int, dat
     requires
         old(k).peer.dom().contains(sender_fd) && old(k).q.dom().contains(old(k).peer[sender_fd]), //@@clause:unix.send_followup_fragment/requires.kernel_wf
         0 < data_buffer@.len() <= spec_frag(sys_sendbuf()), //@@clause:unix.send_followup_fragment/requires.fits_followup_read
+        // a blocking write notices a vanished receiver (EPIPE) only if the writer does not itself keep the receive end open
+        !old(k).own_rx.contains(old(k).peer[sender_fd]), //@@clause:unix.send_followup_fragment/requires.sender_does_not_hold_the_receive_end
     ensures
-        final(k).peer == old(k).peer, final(k).sock == old(k).sock,
+        final(k).peer == old(k).peer, final(k).sock == old(k).sock, final(k).own_rx == old(k).own_rx,
         r is Ok ==> final(k).q == old(k).q.insert(old(k).peer[sender_fd],
             old(k).q[old(k).peer[sender_fd]].push(Packet { hdr: None, data: data_buffer@, fds: Seq::empty() })),
         r is Err ==> final(k).q == old(k).q,
@@ -89,3 +92,11 @@ pub open spec fn failures_recoverable(l0: Seq<Attempt>, l1: Seq<Attempt>) -> boo
     &&& forall|i: int| 0 <= i < l0.len() ==> #[trigger] l1[i] == l0[i]
     &&& forall|i: int| l0.len() <= i < l1.len() && !(#[trigger] l1[i]).ok ==> l1[i].enobufs && l1[i].len > 2000
 }
+
+// drop(Option<OsIpcReceiver>): closes the descriptor (OsIpcReceiver::drop; close-once is the Kani ledger)
+#[verifier::external_body]
+pub fn drop_receiver(r: Option<OsIpcReceiver>, Tracked(k): Tracked<&mut K>)
+    ensures
+        final(k).q == old(k).q, final(k).peer == old(k).peer, final(k).sock == old(k).sock, final(k).log == old(k).log,
+        final(k).own_rx == (match r { Some(x) => old(k).own_rx.remove(cell_val(&x.fd)), None => old(k).own_rx }),
+{ }
